@@ -25,6 +25,42 @@ import (
 	"google.golang.org/protobuf/types/known/wrapperspb"
 )
 
+// vRecorder is the wrapped codec seen by myCodec: it records exactly what myCodec.Marshal received
+// from it (so that map fields, whose encoding order is random, can be part of the generator) and
+// can be told to fail, with or without partial output.
+type vRecorder struct {
+	inner   encoding.Codec
+	last    []byte
+	lastErr error
+	fail    error
+	partial []byte
+}
+
+func (r *vRecorder) Marshal(v interface{}) ([]byte, error) {
+	if r.fail != nil {
+		r.last, r.lastErr = r.partial, r.fail
+		return r.partial, r.fail
+	}
+	b, err := r.inner.Marshal(v)
+	r.last, r.lastErr = append([]byte(nil), b...), err
+	return b, err
+}
+func (r *vRecorder) Unmarshal(data []byte, v interface{}) error { return r.inner.Unmarshal(data, v) }
+func (r *vRecorder) Name() string                                { return r.inner.Name() }
+func (r *vRecorder) String() string                              { return r.inner.Name() }
+
+func vStruct(rng *rand.Rand, depth int) *structpb.Struct {
+	st := &structpb.Struct{Fields: map[string]*structpb.Value{}}
+	for i := rng.Intn(9); i > 0; i-- {
+		if depth > 0 && rng.Intn(4) == 0 {
+			st.Fields[vRandStr(rng, 1+rng.Intn(6))] = structpb.NewStructValue(vStruct(rng, depth-1))
+		} else {
+			st.Fields[vRandStr(rng, 1+rng.Intn(6))] = vValue(rng, 2)
+		}
+	}
+	return st
+}
+
 func vRandStr(rng *rand.Rand, n int) string {
 	b := make([]byte, n)
 	for i := range b {
@@ -86,7 +122,9 @@ func appendVarint(b []byte, v uint64) []byte {
 
 func vMessage(rng *rand.Rand) proto.Message {
 	var m proto.Message
-	switch rng.Intn(7) {
+	switch rng.Intn(8) {
+	case 7:
+		m = vStruct(rng, 2) // map fields: the encoding order differs from call to call
 	case 0:
 		m = &wrapperspb.StringValue{} // empty message
 	case 1:
@@ -139,12 +177,13 @@ func TestVerifChecksum(t *testing.T) {
 	episodes, _ := strconv.Atoi(os.Getenv("VERIF_EPISODES"))
 	rng := rand.New(rand.NewSource(seed))
 	inner := encoding.GetCodec(protoCodec.Name)
-	c := &myCodec{protoCodec: inner}
+	rec := &vRecorder{inner: inner}
+	c := &myCodec{protoCodec: rec}
 	tab := crc32.MakeTable(crc32.Castagnoli)
 
 	one := func(m proto.Message) {
-		std, err1 := inner.Marshal(m)
 		got, err2 := c.Marshal(m)
+		std, err1 := rec.last, rec.lastErr // what the wrapped codec handed to myCodec.Marshal
 		if err1 != nil || err2 != nil {
 			fmt.Fprintf(w, "ck marshal std=%s => err\n", hex.EncodeToString(std))
 			return
@@ -177,6 +216,30 @@ func TestVerifChecksum(t *testing.T) {
 		fmt.Fprintf(w, "ck marshalerr => err len=%d\n", len(b))
 	} else {
 		fmt.Fprintf(w, "ck marshalerr => noerr len=%d\n", len(b))
+	}
+	// wrapped codec fails after producing partial output (golang/protobuf does this for a proto2 message
+	// with unset required fields): still an error, never a checksummed message
+	for _, partial := range [][]byte{nil, {}, {0x0a, 0x01, 0x78}, make([]byte, 300)} {
+		rec.fail, rec.partial = fmt.Errorf("required field not set"), partial
+		b, err := c.Marshal(wrapperspb.String("x"))
+		rec.fail, rec.partial = nil, nil
+		if err != nil {
+			fmt.Fprintf(w, "ck marshalerr partial=%s => err len=%d\n", hex.EncodeToString(partial), len(b))
+		} else {
+			fmt.Fprintf(w, "ck marshalerr partial=%s => noerr len=%d\n", hex.EncodeToString(partial), len(b))
+		}
+	}
+	// the same through the real codec
+	if b, err := c.Marshal(&descriptorpb.UninterpretedOption_NamePart{NamePart: proto.String("x")}); err != nil {
+		fmt.Fprintf(w, "ck marshalerr real=required => err len=%d\n", len(b))
+	} else {
+		fmt.Fprintf(w, "ck marshalerr real=required => noerr len=%d\n", len(b))
+	}
+	{
+		st, _ := structpb.NewStruct(map[string]interface{}{"a": 1.0, "b": "two", "c": true, "d": nil, "e": []interface{}{1.0, 2.0}, "f": "six", "g": 7.0, "h": "eight"})
+		for i := 0; i < 8; i++ {
+			one(st)
+		}
 	}
 	fmt.Fprintf(w, "ck crc hex=%s => crc=%d\n", hex.EncodeToString([]byte("123456789")), crc32.Checksum([]byte("123456789"), tab))
 	for ep := 0; ep < episodes; ep++ {
